@@ -425,7 +425,11 @@ _re_import_line = re.compile(r"^import[ \t]+\w+$")
 # TODO: For more robustness, we should load and minify the AST
 # to search for particular call statements.
 def _is_pkg_style_namespace(init_module: Path) -> bool:
-    code = init_module.read_text(encoding="utf8")
+    try:
+        code = init_module.read_text(encoding="utf8")
+    except (OSError, UnicodeDecodeError):
+        # Let the loader report the unreadable module with a proper loading error.
+        return False
     return bool(_re_pkgresources.search(code) or _re_pkgutil.search(code))
 
 
